@@ -388,6 +388,12 @@ func (p *Path) doAppend(a0, a1 Value) Value {
 	if !ok {
 		p.unsupported("append to %T", a0)
 	}
+	if str, isStr := a1.(*Term); isStr && str.Sort == SStr {
+		// append(b, "text"...) on a byte slice built from an array: continue as a string view
+		if t, ok := byteSliceTerm(s); ok {
+			return BytesOf{s: mkConcat(t, str)}
+		}
+	}
 	var xs []Value
 	switch x := a1.(type) {
 	case Slice:
@@ -888,6 +894,10 @@ func (p *Path) convert(x Value, from, to types.Type) Value {
 	if tb, ok := tu.(*types.Basic); ok {
 		if tb.Info()&types.IsString != 0 {
 			switch xx := x.(type) {
+			case Slice:
+				if t, ok := byteSliceTerm(xx); ok {
+					return t
+				}
 			case BytesOf:
 				return xx.s
 			case *Term:
